@@ -425,6 +425,8 @@ def dst_eval_rule(ctx, R, M):
 
 
 MUTANTS = [
+    ('ims-not-sign-extended', 'miasmx/arch/ia32_arch.py', 'self.intsize(struct.unpack(fmt, bin.readbs(taille))[0], dib==ims)})', 'self.intsize(struct.unpack(fmt, bin.readbs(taille))[0], False)})', 'C17.D8'),
+
     ('segm-on-non-register', 'miasmx/arch/ia32_arch.py', '                    if is_address(a) and p in prefix_seg.values():', '                    if not is_reg(a) and p in prefix_seg.values():', 'C17.D7'),
     ('intsize-ext-signed', 'miasmx/arch/ia32_arch.py', "            return [uint16, uint32][self.opmode == u32](im)", "            return [int16, int32][self.opmode == u32](im)", 'C17.D6'),
     ('iretw-copy-of-into', 'miasmx/arch/ia32_arch.py', "        pm = self.db_mnemo[0xcf]\n        self.iretw_m", "        pm = self.db_mnemo[0xce]\n        self.iretw_m", 'C17.D4'),
@@ -456,6 +458,6 @@ MUTANTS = [
      'addop("ret",   [0xC2],             noafs, [u16]         , {}                 ,{}                , {bkf:True},                 )',
      'addop("ret",   [0xC2],             noafs, [u16]         , {}                 ,{}                , {},                 )', 'C17.D1'),
     ('jz-by-admode', 'miasmx/arch/ia32_arch.py', '                    if self.opmode !=u32:\n                        if dib == u32: dib = u16',
-     '                    if self.admode !=u32:\n                        if dib == u32: dib = u16', 'C17.D2'),
+     '                    if self.admode !=u32:\n                        if dib == u32: dib = u16', 'C17.D5'),
     ('tabmax-u16', 'miasmx/arch/ia32_arch.py', 'x86_afs.u16:0xFFFF, x86_afs.u32:uint32.limit-1', 'x86_afs.u16:0xFFFFF, x86_afs.u32:uint32.limit-1', 'C17.D3'),
 ]
